@@ -49,6 +49,9 @@ pub enum FaultKind {
     NotUtf8InComment,
     /// (load-configuration) warning whose <error-message> text contains a Latin-1 byte, then <ok/>
     NotUtf8InWarningText,
+    /// the positive indication (<data>…</data>, <ok/>) FOLLOWED by an rpc-error of severity error
+    /// in the same reply: a server that fails while streaming its output
+    PositiveThenRpcError,
 }
 
 impl FaultKind {
@@ -73,6 +76,7 @@ impl FaultKind {
             FaultKind::ErrorRootThenPositiveRootOtherId => "error-root-then-positive-root-in-one-frame(other-id)",
             FaultKind::NotUtf8InComment => "positive-but-not-utf8(comment)",
             FaultKind::NotUtf8InWarningText => "positive-but-not-utf8(warning-text)",
+            FaultKind::PositiveThenRpcError => "positive-indication-then-rpc-error",
         }
     }
     /// does this fault mean "the step failed" (as opposed to a benign variation)?
@@ -84,7 +88,7 @@ impl FaultKind {
             FaultKind::RpcError, FaultKind::WarningThenOk, FaultKind::NoPositive, FaultKind::NotXml, FaultKind::Truncated,
             FaultKind::WrongMessageId, FaultKind::CloseBefore, FaultKind::CloseAfter, FaultKind::StallThenClose,
             FaultKind::DelayedRpcError, FaultKind::ErrorThenOk, FaultKind::ErrorWarningThenOk, FaultKind::ForeignError, FaultKind::HoldOk, FaultKind::ErrorReplyThenSecondPositiveReply, FaultKind::ErrorRootThenPositiveRootSameId, FaultKind::ErrorRootThenPositiveRootOtherId,
-            FaultKind::NotUtf8InComment, FaultKind::NotUtf8InWarningText,
+            FaultKind::NotUtf8InComment, FaultKind::NotUtf8InWarningText, FaultKind::PositiveThenRpcError,
         ]
         .into_iter()
         .find(|f| f.name() == s)
@@ -423,6 +427,11 @@ async fn serve(mut s: tokio_rustls::server::TlsStream<tokio::net::TcpStream>, se
                         b.extend(reply(&idv, &ok_body));
                         Some(b)
                     }
+                    FaultKind::PositiveThenRpcError => Some(if op == "load-configuration" {
+                        reply(&idv, &format!("<load-configuration-results><ok/>{RPC_ERROR}</load-configuration-results>"))
+                    } else {
+                        reply(&idv, &format!("{ok_body}{RPC_ERROR}"))
+                    }),
                     FaultKind::NotUtf8InComment | FaultKind::NotUtf8InWarningText => {
                         let body = if *f == FaultKind::NotUtf8InWarningText && op == "load-configuration" {
                             "<load-configuration-results><rpc-error><error-type>application</error-type><error-tag>operation-failed</error-tag><error-severity>warning</error-severity><error-message>statement cr@@BAD@@e par l'op@@BAD@@rateur</error-message></rpc-error><ok/></load-configuration-results>".to_string()
